@@ -94,6 +94,15 @@ CHECKS.update({
             "Commit timestamps and per-entry versions are drawn above the range used for SetDiscardTs (committing below the discard timestamp is a caller error that the oracle asserts on). One known finding (process abort of NewManagedWriteBatch after SetDiscardTs with conflict detection on) is probed from a recorded case; one defect found and fixed.", "3/C36"),
 })
 
+CHECKS.update({
+    "C15": ("exploration", "deterministic simulation with value-log GC phases, compactors and readers as scheduled actors",
+            "RunValueLogGC with schedule points after the pick, at every scanned entry, after the scan, per write-back batch and around file deletion, against commits, deletes, iterators, real compactions and transactions that hold Items from Get or open iterators: every read equals the never-forgetting model, held items keep yielding the written value. Two genuine defects are recorded as known findings (see known_findings.jsonl).",
+            "Known findings are recognised by a cause tag computed from the event trace (GC write-back of a version whose delete marker a compaction discarded; Get item after its vlog file was deleted); any other cause of the same symptom is still reported.", "3/C15"),
+    "C29": ("exploration", "deterministic simulation of DropPrefix/DropAll against concurrent writers and real compactors",
+            "Drops over data in memtables, L0, deeper levels and value log with concurrent writers: right after a drop nothing under the prefixes is visible unless written afterwards, concurrent commits fail with the blocked-writes error or apply wholly, all other keys keep equalling the model, also across the final close. Found and fixed one defect (see known_findings.jsonl).",
+            "Reads of dropped ranges by transactions overlapping a drop are not compared (documented as unsafe). Crash images inside a drop are taken by the C08 machinery only in its own scenario, not here.", "3/C29"),
+})
+
 PENDING = {}  # property -> reason while not yet implemented
 
 def main():
